@@ -225,6 +225,7 @@ def main(argv=None):
         "cases_ok": n_ok,
         "cases_skipped": n_skip,
         "cases_inconclusive": len(inconclusive),
+        "inconclusive_examples": [[i, str(r)[-300:]] for i, r in inconclusive[:5]],
         "cases_missing_worker_died": len(missing),
         "monitor_counters": counters,
         "known_findings_observed": {k: len(v) for k, v in known_hits.items()},
@@ -269,6 +270,9 @@ def main(argv=None):
         f"{len(new_violations)} violating, {len(inconclusive)} inconclusive, "
         f"{len(missing)} lost, distinct non-trivial classes={len(features)}, {wall:.1f}s"
     )
+    for idx, reason in inconclusive[:3]:
+        print(f"  note: case {idx} inconclusive: {str(reason)[-400:]}")
+    coverage_note = None
     if counters:
         print("monitor events: " + ", ".join(f"{k}={v}" for k, v in sorted(counters.items())))
     if new_violations:
